@@ -378,7 +378,7 @@ func (in *Interp) visitInstr(fr *frame, instr ssa.Instruction) continuation {
 	case *ssa.Phi:
 		panic("unreachable: phi")
 	case *ssa.Select:
-		panic(engineError{"select not modelled"})
+		fr.set(instr, in.chanSelect(fr, instr))
 	default:
 		panic(engineError{fmt.Sprintf("unexpected instruction: %T", instr)})
 	}
